@@ -5,6 +5,8 @@
 #ifndef VERIF_ADAPT_SUPPORT_H
 #define VERIF_ADAPT_SUPPORT_H
 #include <sigc++/sigc++.h>
+#include <deque>
+#include <vector>
 #include <cmath>
 #include <cstdio>
 #include <functional>
@@ -83,6 +85,45 @@ inline Trk& trk(int i)
 }
 
 inline void begin() { buf().clear(); }
+
+// bound values given as NAMED VARIABLES (lvalues) that change after the adaptor has been built: bind() must have
+// captured their values, not references to them.  lv(x) returns a reference into a pool; poison() overwrites the pool.
+struct PoolBase
+{
+  virtual void poison() = 0;
+  virtual ~PoolBase() {}
+};
+inline std::vector<PoolBase*>& pools()
+{
+  static std::vector<PoolBase*> p;
+  return p;
+}
+template<typename T>
+struct Pool : PoolBase
+{
+  std::deque<T> v;
+  void poison() override
+  {
+    for (auto& x : v)
+      x = T(-77);
+  }
+};
+template<typename T>
+T& lv(T x)
+{
+  static Pool<T>* p = [] {
+    auto q = new Pool<T>;
+    pools().push_back(q);
+    return q;
+  }();
+  p->v.push_back(x);
+  return p->v.back();
+}
+inline void poison()
+{
+  for (auto p : pools())
+    p->poison();
+}
 
 // run one route, print "<id> log=... res=..."
 template<typename F>
